@@ -562,6 +562,18 @@ let judge op args got =
          | _ -> if !problem = None then resync_all i caps);
         if !problem = None && (Zar.to_int (nlive !mem) <> live || Zar.to_int (nwords !mem) <> words) then
           bad i (Printf.sprintf "ghost heap of the machine: %s blocks %s words, allocator: %d %d" (Zar.to_string (nlive !mem)) (Zar.to_string (nwords !mem)) live words);
+        (* round 5: the routes of the parser beyond 256 groups: P one radix power, Q two, R three or more, E the text was invalid *)
+        (match ops with
+         | Some l ->
+             List.iter (function
+               | OParseL (_, _, _, dpw, _, bs) ->
+                   let nb = List.length bs and cb = 256 * Zar.to_int dpw in
+                   if nb > cb then begin
+                     Hashtbl.replace events (if nb <= 2 * cb then 'P' else if nb <= 4 * cb then 'Q' else 'R') ();
+                     if List.exists (fun b -> b = None) bs then Hashtbl.replace events 'E' ()
+                   end
+               | _ -> ()) l
+         | None -> ());
         let arith = match t.(0) with
           | "uadd" | "usub" | "umul" | "iadd" | "isub" | "imul" | "shl" | "shr" | "setbit" | "clrbit"
           | "uand" | "uor" | "uxor" | "iand" | "ior" | "ixor" | "udiv" | "urem" | "idiv" | "irem"
@@ -600,7 +612,7 @@ let judge op args got =
       (match !problem with
        | Some p -> fail p
        | None ->
-           let evs = String.concat "" (List.filter_map (fun c -> if Hashtbl.mem events c then Some (String.make 1 c) else None) [ 'u'; 'd'; 'g'; 's'; 'f'; 'c' ]) in
+           let evs = String.concat "" (List.filter_map (fun c -> if Hashtbl.mem events c then Some (String.make 1 c) else None) [ 'u'; 'd'; 'g'; 's'; 'f'; 'c'; 'P'; 'Q'; 'R'; 'E' ]) in
            let extra = Printf.sprintf "asis=%s cls=cross%d path=%s" (if !modelled = 0 then "na" else if !diffs = 0 then "same" else "diff")
                (min !crossings 5) ((if !diffs = 0 then "tracked" else "resync") ^ (if evs = "" then "" else "-" ^ evs)) in
            pass ~nt:!heap_seen ~extra ())
